@@ -231,7 +231,7 @@ fn case(t: &mut Tape) -> CaseOut {
 
 pub fn run(ctx: &Ctx) -> i32 {
     let mut rep = Report::new();
-    run_cases(ctx, &mut rep, "sequences", ctx.cases(500_000, 20_000_000), case);
+    run_cases(ctx, &mut rep, "sequences", ctx.cases(2_000_000, 40_000_000), case);
     finish(
         Finish {
             ctx,
